@@ -1,15 +1,17 @@
 import Driver.C20
+import Driver.C14
 /-! `ccdriver`: one operation per input line (`<module> <op> args…`), one result line out:
 `model<TAB>spec`. Stateless modules are dispatched directly; stateful modules keep their state
-in the loop. -/
+in `St`. -/
 open Driver
 
 structure St where
-  dummy : Nat := 0
+  c14 : C14.State := {}
 
 def step (st : St) (line : String) : St × String :=
   match (line.trimAscii.toString.splitOn " ").filter (· ≠ "") with
   | "c20" :: rest => (st, C20.handle rest)
+  | "c14" :: rest => let (s, o) := C14.step st.c14 rest; ({ st with c14 := s }, o)
   | _ => (st, "bad-op\tn/a")
 
 partial def loop (h : IO.FS.Stream) (out : IO.FS.Stream) (st : St) : IO Unit := do
